@@ -375,7 +375,12 @@ func (c *Crew) GetChanged(ctx context.Context) (map[string]*Changed, error) {
 		}
 		js, err := json.Marshal(ch)
 		if err != nil {
-			return nil, err
+			// This change cannot be compared with the previous
+			// one (say a binding is NaN), so report it.  Failing
+			// here instead would lose the messages emitted while
+			// this message was processed and every other change.
+			delete(c.previous, mid)
+			continue
 		}
 		current := string(js)
 		if previous, have := c.previous[mid]; have {
